@@ -56,16 +56,29 @@ impl ShardCtx {
     }
     pub fn journal(&self, variant: &str, case: &Json) {
         if !self.journal.is_empty() {
-            let _ = std::fs::write(
-                &self.journal,
-                serde_json::to_vec(&json!({"variant": variant, "case": case})).unwrap(),
-            );
+            self.journal_raw(&serde_json::to_vec(&json!({"variant": variant, "case": case})).unwrap());
         }
     }
-    pub fn journal_clear(&self) {
-        if !self.journal.is_empty() {
-            let _ = std::fs::write(&self.journal, b"");
+    /// overwrite the journal with raw bytes through a cached handle (cheap enough per case)
+    pub fn journal_raw(&self, bytes: &[u8]) {
+        use std::io::{Seek, SeekFrom, Write};
+        if self.journal.is_empty() {
+            return;
         }
+        JOURNAL.with(|j| {
+            let mut j = j.borrow_mut();
+            if j.is_none() {
+                *j = std::fs::OpenOptions::new().create(true).write(true).truncate(true).open(&self.journal).ok();
+            }
+            if let Some(f) = j.as_mut() {
+                let _ = f.seek(SeekFrom::Start(0));
+                let _ = f.write_all(bytes);
+                let _ = f.set_len(bytes.len() as u64);
+            }
+        });
+    }
+    pub fn journal_clear(&self) {
+        self.journal_raw(b"");
     }
 }
 
@@ -174,7 +187,7 @@ impl Obs {
 
 static PANICS: Mutex<Vec<String>> = Mutex::new(Vec::new());
 thread_local! {
-    static QUIET: Cell<bool> = Cell::new(false);
+    static JOURNAL: RefCell<Option<std::fs::File>> = const { RefCell::new(None) };
 }
 
 pub fn install_panic_hook() {
